@@ -27,13 +27,18 @@ RULE = ("maps / map sets of all five games and the base classes (0-3 maps, every
         "a history on the same object: m.stack() / an earlier rate, then list-property edits (`m.hits.offset += d`, `m.bpms.bpm = ...`) or "
         "replacement by a list with as many rows; the chart is snapshotted right before the final rate), rate r > 0 from the exact stream (p/2^k with all times "
         "multiples of p: every double operation exact, equality required) or arbitrary positive doubles (2^-40 tolerance); "
-        "claims scale / one / comp / writeread; non-trivial = r != 1 and at least one non-empty list with a time in it")
+        "claims scale / one / comp / writeread; writeread (osu, StepMania, Quaver, BMS; also half of the search stream) in two modes: grid = chart "
+        "and rate arranged so that the rated chart is on the format's grid, free = only the un-rated chart is on the grid and the rate is any of "
+        "3, 3/2, 3/4, 11/10, 1/3, 2/3, 9/10, 147/160, n/100 ... so that the rated offsets, header times, sample windows, preview points, tempos "
+        "and lengths are non-terminating / sub-millisecond values; non-trivial = r != 1 and at least one non-empty list with a time in it")
 ASSUMPTIONS = [
     "row labels and dtypes are not compared (stacking renumbers labels and floats int columns; the property does not name them)",
     "writeread is checked on the implementation side only: read(write(rate r c)) against the Lean specification "
     "scaleSet r applied to read(write(c)); the writers/readers themselves are the subject of C01/C03/C05/C06",
-    "writeread charts are generated on each format's grid (integer milliseconds for osu, beats on the 1/48 grid for "
-    "StepMania and BMS) so that the format's own quantisation does not enter",
+    "writeread: the UN-rated chart is generated on each format's grid (integer milliseconds for osu / Quaver, beats on the 1/48 grid "
+    "for StepMania and BMS); the rated chart is on the grid in `grid` mode and off it in `free` mode, where a time the format stores in "
+    "whole ms (osu / Quaver: `int(...)` in the writers, C01 / C06) may come back as a whole number < 1 ms away and nothing else may move",
+    "BMS rates whose rated tempo is not a three-decimal number are the open finding D06 (C05), reported as KNOWN-FINDING",
 ]
 TRUSTED_EXTRA = ["copy.deepcopy (modelled as purity of the model; aliasing is observed: before/after snapshot, np.shares_memory)"]
 
@@ -323,6 +328,8 @@ def gen_writeread(rng):
     """a chart on the format's grid, in musical terms: tempo points at whole beats, notes on the 1/48 grid;
     built into the game's objects by `build_wr` (times = t0 + beats * 60000 / bpm with dyadic beat lengths)"""
     game = rng.choice(WR_GAMES)
+    if rng.random() < 0.5:
+        return gen_writeread_free(rng, game)
     # rate: r = p / q small; beat lengths 60000/bpm are chosen so that everything stays on the integer-ms grid for osu
     p, q = rng.choice([(1, 1), (2, 1), (1, 2), (3, 2), (2, 3), (3, 4), (4, 3), (5, 4), (4, 5), (3, 1), (1, 4)])
     if game in ("osu", "qua"):
@@ -377,6 +384,85 @@ def gen_writeread(rng):
     return case
 
 
+# rates whose results are not representable at a writer's apparent resolution (whole ms, three decimals, ...):
+# x / r is non-terminating or sub-millisecond for ordinary whole-ms x, bpm * r has a long expansion
+FREE_RATES = [(3, 1), (3, 2), (3, 4), (11, 10), (1, 3), (2, 3), (9, 10), (21, 20), (147, 160), (7, 10), (4, 3), (6, 5), (7, 1),
+              (13, 10), (8, 7), (1, 7), (17, 16), (1001, 1000), (999, 1000)]
+
+
+def gen_writeread_free(rng, game):
+    """as gen_writeread, but only the UN-rated chart sits on the format's grid (whole-ms times for osu / Quaver, beats on
+    the 1/48 grid everywhere): nothing is arranged to be divisible by the rate, so the rated offsets, header times,
+    sample windows, preview points, tempos and lengths are non-terminating / sub-millisecond values.  The judgement
+    (run_writeread) allows exactly the quantisation the format itself applies to a time (whole ms in osu / Quaver)."""
+    if game == "bms":
+        # #BPMxx carries three decimals (open D06, C05's business): rates n/100 keep 60000/bl * r on that grid for the
+        # beat lengths below, while the rated times leave the millisecond grid
+        n = rng.choice([110, 90, 105, 75, 150, 300, 70, 120, 220, 33, 95, 125, 260, 99, 101, rng.randint(25, 300)])
+        r = Fr(n, 100)
+        if rng.random() < 0.25:
+            r = Fr(*rng.choice(FREE_RATES))         # any rate: where the rated tempo leaves the three decimals it is D06
+    elif rng.random() < 0.75:
+        r = Fr(*rng.choice(FREE_RATES))
+    else:
+        r = Fr(rng.randint(25, 300), 100)
+    n_bpm = rng.choice([1, 1, 2, 3])
+    keys = rng.choice([4, 7]) if game != "sm" else 4
+    if game == "sm" and rng.random() < 0.5:
+        # any tempo: StepMania stores beats and full-precision floats
+        bl_choices = [461, 345, 500, 333, 250, 1000, 413, 96 * 7]
+    elif game == "bms":
+        bl_choices = [48 * k for k in (2, 4, 5, 10)]
+    else:
+        bl_choices = [48 * k for k in (2, 3, 4, 5, 6, 7, 8, 10, 11, 13)]
+    bpms = []
+    beat = 0
+    for j in range(n_bpm):
+        bpms.append(dict(beat=beat, bl=rng.choice(bl_choices)))
+        beat += rng.choice([4, 8, 12])
+    n_hits = rng.choice([0, 1, 3, 6])
+    n_holds = rng.choice([0, 0, 1, 3])
+    total = beat + 8
+    hits, holds = [], []
+    spans = []
+    for _ in range(n_holds):
+        b = Fr(rng.randrange(0, total * 4), 4)
+        ln = Fr(rng.randrange(1, 32), 4)
+        col = rng.randrange(keys)
+        if any(c2 == col and not (b + ln < lo or hi < b) for c2, lo, hi in spans):
+            continue
+        spans.append((col, b, b + ln))
+        holds.append(dict(beat=R(b), len=R(ln), col=col))
+    for _ in range(n_hits):
+        b = Fr(rng.randrange(0, total * 48), 48) if rng.random() < 0.5 else Fr(rng.randrange(0, total * 4), 4)
+        col = rng.randrange(keys)
+        if any(c2 == col and lo <= b <= hi for c2, lo, hi in spans):
+            continue
+        spans.append((col, b, b))
+        hits.append(dict(beat=R(b), col=col))
+    t0 = 0 if game == "bms" else rng.choice([0, 1000, 1, -1, 250, -700, 2000, 1234, 37, rng.randint(-3000, 3000)])
+    case = dict(claim="writeread", mode="free", game=game, r=R(r), keys=keys, t0=t0, bpms=bpms, hits=hits, holds=holds)
+    if game == "osu":
+        case["preview"] = rng.choice([0, 1000, rng.randint(1, 90000), rng.randint(1, 90000), -1])
+        case["samples"] = [dict(t=rng.randint(0, 90000), vol=rng.randint(1, 100)) for _ in range(rng.choice([0, 0, 1, 3]))]
+        case["svs"] = [dict(t=rng.randint(0, 90000), m=rng.choice([0.5, 2.0, 1.25])) for _ in range(rng.choice([0, 0, 2]))]
+    if game == "sm":
+        case["sample_start"] = rng.choice([10000, 1000, rng.randint(0, 90000)])
+        case["sample_length"] = rng.choice([5000, 10000, rng.randint(1, 30000)])
+    if game == "qua":
+        case["svs"] = [dict(t=rng.randint(0, 90000), m=rng.choice([0.5, 2.0, 1.25])) for _ in range(rng.choice([0, 0, 2]))]
+    return case
+
+
+def gen_search(rng, tier, i):
+    """the stream used when the correspondence / a proof obligation is broken and a failing input is searched for:
+    the main stream, with the file-level claim (rate -> write -> read) drawn as often as the in-memory ones"""
+    if rng.random() < 0.5:
+        game = rng.choice(WR_GAMES)
+        return gen_writeread_free(rng, game) if rng.random() < 0.7 else gen_writeread(rng)
+    return gen(rng, tier, i)
+
+
 # ------------------------------------------------------------------------------------------ corpus
 
 def _fr(cols, rows):
@@ -429,6 +515,18 @@ def corpus():
     c.append(dict(claim="writeread", game="osu", r=R(Fr(3, 2)), keys=4, t0=144, bpms=[dict(beat=0, bl=288), dict(beat=8, bl=576)],
                   hits=[dict(beat=R(Fr(1, 48)), col=0), dict(beat=R(9), col=3)], holds=[dict(beat=R(2), len=R(Fr(3, 4)), col=1)],
                   preview=1440, samples=[dict(t=288, vol=40)], svs=[dict(t=144, m=0.5)]))
+    # BMS: 156.25 bpm at rate 5/4 stays on `#BPMxx`'s three decimals (195.3125 would not: see the witness of D06) ...
+    c.append(dict(claim="writeread", game="bms", r=R(Fr(2, 5)), keys=7, t0=0, bpms=[dict(beat=0, bl=384)],
+                  hits=[dict(beat=R(8), col=0), dict(beat=R(Fr(33, 2)), col=3)], holds=[], ))
+    # C13-H class: header times / sample window that are whole ms before and not after the rate change
+    c.append(dict(claim="writeread", mode="free", game="sm", r=R(3), keys=4, t0=1000, bpms=[dict(beat=0, bl=500)],
+                  hits=[dict(beat=R(0), col=0), dict(beat=R(Fr(5, 2)), col=2)], holds=[dict(beat=R(4), len=R(2), col=1)],
+                  sample_start=10000, sample_length=5000))
+    c.append(dict(claim="writeread", mode="free", game="osu", r=R(Fr(11, 10)), keys=4, t0=1000, bpms=[dict(beat=0, bl=480)],
+                  hits=[dict(beat=R(Fr(1, 48)), col=0), dict(beat=R(9), col=3)], holds=[dict(beat=R(2), len=R(Fr(3, 4)), col=1)],
+                  preview=10000, samples=[dict(t=1000, vol=40), dict(t=1001, vol=20)], svs=[dict(t=1234, m=0.5)]))
+    c.append(dict(claim="writeread", mode="free", game="qua", r=R(Fr(1, 3)), keys=7, t0=-700, bpms=[dict(beat=0, bl=336), dict(beat=4, bl=480)],
+                  hits=[dict(beat=R(Fr(7, 48)), col=6)], holds=[dict(beat=R(1), len=R(Fr(5, 4)), col=2)], svs=[dict(t=777, m=2.0)]))
     return c
 
 
@@ -444,13 +542,26 @@ def valid(case):
             if any(x >= y for x, y in zip(beats[:-1], beats[1:])):
                 return False
             p, q = F(case["r"]).numerator, F(case["r"]).denominator
-            if any(b["bl"] % (48 * p) for b in case["bpms"]) or case["t0"] % (48 * p):
+            free = case.get("mode") == "free"
+            if case.get("mode") not in (None, "free"):
+                return False
+            if free:
+                # only the un-rated chart is on the format's grid; nothing is divisible by the rate
+                p = 1
+                if not isinstance(case["t0"], int) or any(not isinstance(b["bl"], int) for b in case["bpms"]):
+                    return False
+                if case["game"] == "sm":
+                    if any(b["bl"] < 48 for b in case["bpms"]):
+                        return False
+                elif any(b["bl"] % 48 for b in case["bpms"]):
+                    return False
+            elif any(b["bl"] % (48 * p) for b in case["bpms"]) or case["t0"] % (48 * p):
                 return False
             if case["keys"] not in (4, 7) or (case["game"] == "sm" and case["keys"] != 4):
                 return False
-            if case["game"] in ("osu", "qua") and q & (q - 1):
+            if not free and case["game"] in ("osu", "qua") and q & (q - 1):
                 return False
-            if case["game"] == "bms" and (case["t0"] != 0 or any(f not in (1, 2, 4, 5, 8, 10, 16, 20, 25, 40, 50) for f in [q] + [b["bl"] // (48 * p) for b in case["bpms"]])):
+            if case["game"] == "bms" and (case["t0"] != 0 or any(f not in (1, 2, 4, 5, 8, 10, 16, 20, 25, 40, 50) for f in ([] if free else [q]) + [b["bl"] // (48 * p) for b in case["bpms"]])):
                 return False
             spans = []
             for h in case["holds"]:
@@ -467,12 +578,13 @@ def valid(case):
                 if any(c2 == h["col"] and lo <= b <= hi for c2, lo, hi in spans):
                     return False
                 spans.append((h["col"], b, b))
+            g = 1 if free else 48 * p
             for k in ("samples", "svs"):
                 for s in case.get(k, []):
-                    if s["t"] % (48 * p):
+                    if not isinstance(s["t"], int) or s["t"] % g:
                         return False
             for k in ("preview", "sample_start", "sample_length"):
-                if k in case and not (k == "preview" and case[k] == -1) and (case[k] < 0 or case[k] % (48 * p)):
+                if k in case and not (k == "preview" and case[k] == -1) and (not isinstance(case[k], int) or case[k] < 0 or case[k] % g):
                     return False
             return True
         rs = [case["r"]] if cl in ("scale", "one") else [case["a"], case["b"]]
@@ -1117,10 +1229,130 @@ def d05_predicate(case):
     return any(lanes.count(h["col"]) >= 2 for h in case["holds"])
 
 
+# the times a format stores as whole milliseconds (the writers apply `int(...)`; C01's / C06's theorems: truncated
+# to whole ms, everything else exactly): list name -> quantised; osu also: sample events, PreviewTime
+WR_QUANT = dict(osu=dict(lists={"hits", "holds"}, samples=True, preview=True),
+                qua=dict(lists={"hits", "holds", "bpms", "svs"}, samples=False, preview=False))
+
+
+def _close_q(eps, a, b):
+    d = abs(a - b)
+    return d <= eps + eps * max(abs(a), abs(b))
+
+
+def _cell_ok(eps, w, g):
+    if isinstance(w, list) and isinstance(g, list) and len(w) == 2 and len(g) == 2:
+        return _close_q(eps, F(w), F(g))
+    return w == g
+
+
+def _time_ok(eps, w, g, whole):
+    """a time the format stores in whole ms: where the rated value is a whole number it must come back as it is,
+    otherwise as a whole number less than 1 ms away (the format's own quantisation; the property cannot ask for more)"""
+    if whole:
+        return _close_q(eps, w, g)
+    return g.denominator == 1 and abs(g - w) < 1 + eps
+
+
+def _row_ok(eps, cols, w, g, quant):
+    if not quant:
+        return all(_cell_ok(eps, x, y) for x, y in zip(w, g))
+    d = dict(zip(cols, w))
+    wo = F(d["offset"])
+    for c, x, y in zip(cols, w, g):
+        if c == "offset":
+            if not (isinstance(y, list) and _time_ok(eps, wo, F(y), wo.denominator == 1)):
+                return False
+        elif c == "length":
+            if x is None or y is None:
+                if x != y:
+                    return False
+                continue
+            # the file stores the tail (start + length) as a whole-ms time, not the length
+            go = dict(zip(cols, g))["offset"]
+            if not isinstance(go, list):
+                return False
+            we, ge = wo + F(x), F(go) + F(y)
+            if not _time_ok(eps, we, ge, wo.denominator == 1 and we.denominator == 1):
+                return False
+        elif not _cell_ok(eps, x, y):
+            return False
+    return True
+
+
+def _match_rows(eps, cols, want, got, quant):
+    """a perfect matching between the wanted and the read rows (files do not keep the order of rows, and truncation can
+    tie two times that were distinct)"""
+    if len(want) != len(got):
+        return False
+    n = len(want)
+    adj = [[j for j in range(n) if _row_ok(eps, cols, want[i], got[j], quant)] for i in range(n)]
+    owner = [-1] * n
+
+    def aug(i, seen):
+        for j in adj[i]:
+            if j in seen:
+                continue
+            seen.add(j)
+            if owner[j] < 0 or aug(owner[j], seen):
+                owner[j] = i
+                return True
+        return False
+    return all(aug(i, set()) for i in range(n))
+
+
+def wr_quantised_ok(game, eps, want, got):
+    """`got` is `want` (the specification's rated timeline, exact) as the format carries it: times the format stores in
+    whole ms come back within the format's quantum, every other number within eps"""
+    q = WR_QUANT.get(game, dict(lists=set(), samples=False, preview=False))
+
+    def frame_ok(w, g, quant):
+        if (w is None) != (g is None):
+            return False
+        if w is None:
+            return True
+        return w["cols"] == g["cols"] and _match_rows(eps, w["cols"], w["rows"], g["rows"], quant)
+    if len(want["maps"]) != len(got["maps"]):
+        return False
+    for wm, gm in zip(want["maps"], got["maps"]):
+        if [n for n, _ in wm["lists"]] != [n for n, _ in gm["lists"]]:
+            return False
+        for (n, wf), (_, gf) in zip(wm["lists"], gm["lists"]):
+            if not frame_ok(wf, gf, n in q["lists"]):
+                return False
+        if not frame_ok(wm.get("samples"), gm.get("samples"), q["samples"]):
+            return False
+        wp, gp = wm.get("preview"), gm.get("preview")
+        if (wp is None) != (gp is None):
+            return False
+        if wp is not None:
+            wp, gp = F(wp), F(gp)
+            if wp < 0 or not q["preview"]:
+                if not _close_q(eps, wp, gp):
+                    return False
+            elif not _time_ok(eps, wp, gp, wp.denominator == 1):
+                return False
+    for k in ("offset", "sample_start", "sample_length"):
+        w, g = want.get(k), got.get(k)
+        if (w is None) != (g is None) or (w is not None and not _close_q(eps, F(w), F(g))):
+            return False
+    return True
+
+
+def d06_predicate(case):
+    """known finding D06 (BMS writing, open): `#BPMxx` carries three decimals.  Reached through `rate` exactly when some
+    rated tempo 60000/bl * r is not a three-decimal number (Lean: `hdec_rate_iff`, `bms_rate_hdec_necessary`): the written
+    tempo is rounded and the file drifts away from the rated chart"""
+    if case["game"] != "bms":
+        return False
+    r = F(case["r"])
+    return any((Fr(60000, b["bl"]) * r * 1000).denominator != 1 for b in case["bpms"])
+
+
 def run_writeread(case, drv):
     import warnings
     game = case["game"]
-    r = F(case["r"])
+    r = Fr(float(F(case["r"])))          # the double the implementation receives
     kind = "sm" if game == "sm" else "base"
     tags = [game, "writeread"]
     detail = {}
@@ -1169,6 +1401,13 @@ def run_writeread(case, drv):
     _, v_mem = spec_verdict(drv, game, kind, r, R(EPS_T), c0, mem)
     # read-back of the written rated chart against the specification: the rated timeline
     d_wr, v_wr = spec_verdict(drv, game, kind, r, R(EPS_WR), c0, got)
+    if v_wr == "fail" and game in WR_QUANT:
+        # the rated times are not whole ms and this format stores whole ms: the rated timeline as the format carries it
+        # (same judgement wherever the rated value is a whole number)
+        want_q = drv.call("c13.scale_set", game=game, kind=kind, r=R(r), set=c0)["ok"]
+        if wr_quantised_ok(game, EPS_WR, want_q, got):
+            v_wr = "ok"
+            tags.append("format-quantum")
     sp_mem = dict(holds=v_mem != "fail")
     sp = dict(holds=v_wr != "fail", dom=d_wr)
     ok = sp["holds"] and sp_mem["holds"]
@@ -1181,10 +1420,17 @@ def run_writeread(case, drv):
             kf = "D05"          # BMS long-note tails are paired in file order: not caused by the rate change
         else:
             ok = bool(sp_mem["holds"])   # no verdict on the file level: the format does not carry this chart
+    if not ok and kf is None and sp_mem["holds"] and d06_predicate(case):
+        kf = "D06"              # the rated tempo does not fit `#BPMxx`'s three decimals: C05's open finding, reached through rate
+        dom = False
+    if d06_predicate(case):
+        tags.append("bpm-off-3-decimals")
     if not ok:
         detail = dict(r=str(r), base=c0, rated_in_memory=mem, read_back=got, base_again=c0_again,
                       want=drv.call("c13.scale_set", game=game, kind=kind, r=R(r), set=c0)["ok"])
     n_obj = len(case["hits"]) + len(case["holds"])
+    if case.get("mode") == "free":
+        tags.append("free-rate")
     res = dict(claim="writeread", ok=bool(ok), agree=True, dom=dom, kf=kf, tags=tags,
                nontrivial=(r != 1 and n_obj > 0 and stable))
     if detail:
